@@ -43,7 +43,7 @@ def stEq (a b : St) : Bool :=
 
 /-- exact squared distances only on integer-grid families -/
 def exactFam (fam : String) : Bool :=
-  fam.startsWith "grid" || fam == "line" || fam == "circle" || fam == "offset"
+  fam.startsWith "grid" || fam == "line" || fam == "circle" || fam == "offset" || fam == "tiny"
 
 def vertsMatch (s : St) (a : AState) : Bool :=
   s.pos.size == a.verts.size &&
